@@ -215,6 +215,18 @@ struct Dataset {
 /// the historical time a backtest has REACHED is unmistakable in the timestamps of its fills.
 const SPACING_MS: i64 = 3_600_000;
 
+/// Exchange time of dataset entry `seq` (ms after t0). Entries are one hour apart, but every seventh one is stamped
+/// 90 minutes EARLIER than its place (a merged recording of several venues is in arrival order, not in exchange-time
+/// order); all stamps are distinct. The historical clock never goes back for such an item.
+fn stamp_ms(seq: i64) -> i64 {
+    (seq + 1) * SPACING_MS - if seq >= 2 && seq % 7 == 4 { 5_400_000 } else { 0 }
+}
+
+/// The historical time a backtest has reached once it has processed entries 0..=seq (markers carry no time).
+fn reached_ms(events: &[(usize, i64)], seq: i64) -> i64 {
+    (0..=seq).filter(|k| events.get(*k as usize).map(|e| e.0 != MARK).unwrap_or(false)).map(stamp_ms).max().unwrap_or(0)
+}
+
 /// Dataset entries with this "instrument" are `MarketStreamEvent::Reconnecting` markers (recorded market
 /// data of a live system contains them wherever the venue connection dropped).
 const MARK: usize = 9;
@@ -224,8 +236,8 @@ fn market_event(stream: u64, seq: u64, instr: usize, price: Decimal) -> MarketSt
         return MarketStreamEvent::Reconnecting(ExchangeId::BinanceSpot);
     }
     MarketStreamEvent::Item(MarketEvent {
-        time_exchange: fixtures::t((seq as i64 + 1) * SPACING_MS),
-        time_received: fixtures::t((seq as i64 + 1) * SPACING_MS),
+        time_exchange: fixtures::t(stamp_ms(seq as i64)),
+        time_received: fixtures::t(stamp_ms(seq as i64)),
         exchange: ExchangeId::BinanceSpot,
         instrument: InstrumentIndex(instr),
         kind: Tick { stream, seq, price },
@@ -601,11 +613,11 @@ fn judge_single(case: &Case, b: usize, obs: &Obs, dg: &Digest, elapsed_ms: i64, 
     // only another backtest has reached
     for (seq, t_ms) in obs.trade_times.iter().filter(|(seq, _)| *seq >= 0) {
         out.checks += 1;
-        let lag = t_ms - (seq + 1) * SPACING_MS;
+        let lag = t_ms - reached_ms(&case.events, *seq);
         if lag > elapsed_ms + 1000 || (case.gated && lag < 0) {
             return Err((
                 "fill_stamped_with_a_time_this_backtest_had_not_reached",
-                format!("backtest bt{b}: a fill carries exchange time t0+{t_ms} ms; the last item its engine had processed when the fill arrived is #{seq} (t0+{} ms) and the whole run took {elapsed_ms} ms of wall time", (seq + 1) * SPACING_MS),
+                format!("backtest bt{b}: a fill carries exchange time t0+{t_ms} ms; the last item its engine had processed when the fill arrived is #{seq} (historical time reached: t0+{} ms) and the whole run took {elapsed_ms} ms of wall time", reached_ms(&case.events, *seq)),
             ));
         }
     }
